@@ -108,10 +108,13 @@ func (f *FlowMod) MarshalBinary() (data []byte, err error) {
 	bytes, err = f.Match.MarshalBinary()
 	data = append(data, bytes...)
 
-	for _, instr := range f.Instructions {
-		bytes, err = instr.MarshalBinary()
-		data = append(data, bytes...)
-		log.Debugf("flowmod instr: %v", bytes)
+	// Delete commands carry no instructions: Len() does not count them, so they must not be emitted.
+	if f.Command != FC_DELETE && f.Command != FC_DELETE_STRICT {
+		for _, instr := range f.Instructions {
+			bytes, err = instr.MarshalBinary()
+			data = append(data, bytes...)
+			log.Debugf("flowmod instr: %v", bytes)
+		}
 	}
 
 	log.Debugf("Flowmod(%d): %v", len(data), data)
